@@ -15,7 +15,7 @@ from lv import core, model, gen, drive, canon
 from lv.props import common
 
 ID = 'C08'
-BUDGET = {'quick': 130, 'thorough': 3000}
+BUDGET = {'quick': 160, 'thorough': 3000}
 RULE = ('programs from the typed generator: 3-4 intermediate concrete predicates, half of them '
         'drawn by the general rule generator (joins, aggregation, negation, aggregating '
         'expressions, disjunction ...), half of them small rules built around injection '
